@@ -10,4 +10,4 @@ if [ ! -x "$here/build/bin/instrument" ] || [ "$here/tools/instrument/main.go" -
 fi
 args=()
 for r in "$@"; do args+=(-replace "$r"); done
-"$here/build/bin/instrument" -mode maporder,sync -out "$out" -gen "$here/build/gen-c17" -rt "$here/overlay/zzverifrt.go.txt" -report "$here/build/gen-c17-sites.json" "${args[@]}"
+"$here/build/bin/instrument" -mode maporder,sync,clock -out "$out" -gen "$here/build/gen-c17" -rt "$here/overlay/zzverifrt.go.txt" -report "$here/build/gen-c17-sites.json" "${args[@]}"
